@@ -485,6 +485,7 @@ class Configuration(_Configuration):
         return self.parser.tokeniser
 
     def _clear(self) -> None:
+        self._previous_processes = self.processes
         self.processes = {}
         self._previous_neighbors = self.neighbors
         self.neighbors = {}
@@ -522,8 +523,10 @@ class Configuration(_Configuration):
         self.operational.clear()
 
     def _rollback_reload(self) -> None:
+        # back to what was in force before the reload was attempted: the neighbors and the
+        # processes of the running configuration, not what the parser had read so far
         self.neighbors = self._previous_neighbors
-        self.processes = self.process.processes
+        self.processes = getattr(self, '_previous_processes', None) or self.process.processes
         self._neighbors = {}
         self._previous_neighbors = {}
 
@@ -550,12 +553,14 @@ class Configuration(_Configuration):
         except Error as exc:
             if getenv().debug.configuration:
                 raise
+            self._rollback_reload()
             return self.error.set(
                 f'problem parsing configuration file line {self.parser.index_line}\nerror message: {exc}',
             )
         except Exception as exc:
             if getenv().debug.configuration:
                 raise
+            self._rollback_reload()
             return self.error.set(
                 f'problem parsing configuration file line {self.parser.index_line}\nerror message: {exc}',
             )
@@ -575,13 +580,16 @@ class Configuration(_Configuration):
 
         if self._text:
             if not self.parser.set_text(fname):
+                self._rollback_reload()
                 return False
         else:
             # resolve any potential symlink, and check it is a file
             target = os.path.realpath(fname)
             if not os.path.isfile(target):
-                return False
+                self._rollback_reload()
+                return self.error.set(f'the configuration file {fname} can not be read')
             if not self.parser.set_file(target):
+                self._rollback_reload()
                 return False
 
         self.process.add_api()
